@@ -637,9 +637,16 @@ def check_histories(ctx, drv, histories, tag, with_model=True):
                 report_oracle(ctx, h, got, exp)
         impls.append(got)
         lines.append(line_of(h))
-    if not with_model:
+    if not with_model or getattr(ctx, "_c01_no_driver", False) or not lines:
         return
-    outs = drv.run(lines)
+    try:
+        outs = drv.run(lines)
+    except core.DriverError as e:
+        # the model no longer builds (a generated kernel is absent or a proof broke): the tie is reported as
+        # broken, and the direct oracle above keeps judging the implementation on every history
+        ctx._c01_no_driver = True
+        ctx.broke("driver:" + DRIVER, str(e))
+        return
     for h, got, o in zip(histories, impls, outs):
         ctx.traces_validated += 1
         model = o.split("|")
@@ -727,7 +734,7 @@ def _run(ctx):
     ctx.stat("corpus_histories", len(corpus))
 
     # ---- stream 1: random histories
-    n = ctx.n(2500, 60000) * boost
+    n = ctx.n(4000, 120000) * boost
     batch = []
     for i in range(n):
         h = gen_history(rng)
@@ -761,14 +768,19 @@ def _run(ctx):
 
 
 def replay(ctx, rep):
-    r = rep["replay"]
+    r = rep.get("replay") or {}
     h = r.get("history")
+    core.extract()      # the model must be the one generated from the tree under test
     if "history" not in r:
         print("nothing to replay: " + rep.get("what", ""))
         return 0
     got = run_impl(h)
     exp = run_oracle(h)
-    model = core.Driver(DRIVER).run([line_of(h)])[0].split("|")
+    try:
+        model = core.Driver(DRIVER).run([line_of(h)])[0].split("|")
+    except core.DriverError:
+        print("(the Lean model does not build against this tree: implementation vs property only)")
+        model = list(exp)
     print("history (%d ops):" % len(h))
     for i, op in enumerate(h):
         mark = "  <-- differs" if got[i] != exp[i] or got[i] != model[i] else ""
